@@ -524,6 +524,14 @@ def rule_formulas(repo, rep):
   scal = {wname: 'w'} if wname else {}
   genv = dict(env)
   gatoms = dict(atoms)
+  # loop variables running over the difference vectors (whatever their names)
+  if loop and isinstance(loop[0].target, ast.Tuple) and \
+          isinstance(loop[0].iter, ast.Call):
+    for t, a in zip(loop[0].target.elts, loop[0].iter.args):
+      base = a.value if isinstance(a, ast.Subscript) else a
+      if isinstance(t, ast.Name) and ast.unparse(base) in ('vab', 'vcd'):
+        gatoms['np.outer(%s, %s)' % (t.id, t.id)] = \
+            'Vab' if ast.unparse(base) == 'vab' else 'Vcd'
   uexpr = upd[0].value
   # index form: `for i in np.flatnonzero(<mask>)` (or np.where(...)[0]) with
   # every sequence subscripted by the same i
